@@ -582,6 +582,102 @@ func determinism(r *rep.Run, sc Scenario) {
 	}
 }
 
+// ---- request-kind sweep ---------------------------------------------------------------
+
+const clauseText = "each caller gets the reply carrying its own id or a timeout; late / duplicate replies are discarded without blocking message processing; nothing is left in the pending tables; a fresh request still works"
+
+type kindSession struct {
+	getty.Session
+	mu   sync.Mutex
+	last []message.RpcMessage
+}
+
+func (s *kindSession) IsClosed() bool                         { return false }
+func (s *kindSession) Close()                                 {}
+func (s *kindSession) RemoteAddr() string                     { return "10.0.0.1:8091" }
+func (s *kindSession) LocalAddr() string                      { return "127.0.0.1:40001" }
+func (s *kindSession) Stat() string                           { return "c14-kind-session" }
+func (s *kindSession) SetAttribute(k, v interface{})          {}
+func (s *kindSession) GetAttribute(k interface{}) interface{} { return nil }
+func (s *kindSession) RemoveAttribute(k interface{})          {}
+func (s *kindSession) WritePkg(pkg interface{}, _ time.Duration) (int, int, error) {
+	if m, ok := pkg.(message.RpcMessage); ok {
+		s.mu.Lock()
+		s.last = append(s.last, m)
+		s.mu.Unlock()
+	}
+	return 1, 1, nil
+}
+
+// kindSweep: one synchronous caller for every kind of request the client sends and awaits; the reply of the matching kind,
+// carrying the request's id, must reach that caller (correlation is by id, whatever the kind), and nothing may be left
+// pending. No scheduling choices are involved: the reply is delivered once the request is on the wire.
+func kindSweep(r *rep.Run) {
+	end := message.AbstractGlobalEndRequest{Xid: "10.0.0.1:8091:77"}
+	ok := message.AbstractResultMessage{ResultCode: message.ResultCodeSuccess}
+	tr := message.AbstractTransactionResponse{AbstractResultMessage: ok}
+	ge := message.AbstractGlobalEndResponse{AbstractTransactionResponse: tr, GlobalStatus: message.GlobalStatusCommitted}
+	kinds := []struct {
+		name     string
+		req, rsp interface{}
+	}{
+		{"global-begin", message.GlobalBeginRequest{TransactionName: "k", Timeout: time.Second}, message.GlobalBeginResponse{AbstractTransactionResponse: tr, Xid: "10.0.0.1:8091:78"}},
+		{"global-commit", message.GlobalCommitRequest{AbstractGlobalEndRequest: end}, message.GlobalCommitResponse{AbstractGlobalEndResponse: ge}},
+		{"global-rollback", message.GlobalRollbackRequest{AbstractGlobalEndRequest: end}, message.GlobalRollbackResponse{AbstractGlobalEndResponse: ge}},
+		{"global-status", message.GlobalStatusRequest{AbstractGlobalEndRequest: end}, message.GlobalStatusResponse{AbstractGlobalEndResponse: ge}},
+		{"global-report", message.GlobalReportRequest{AbstractGlobalEndRequest: end, GlobalStatus: message.GlobalStatusCommitted}, message.GlobalReportResponse{AbstractGlobalEndResponse: ge}},
+		{"branch-register", message.BranchRegisterRequest{Xid: end.Xid, ResourceId: "res", LockKey: "t:1"}, message.BranchRegisterResponse{AbstractTransactionResponse: tr, BranchId: 9}},
+		{"branch-report", message.BranchReportRequest{Xid: end.Xid, BranchId: 9, ResourceId: "res"}, message.BranchReportResponse{AbstractTransactionResponse: tr}},
+		{"lock-query", message.GlobalLockQueryRequest{BranchRegisterRequest: message.BranchRegisterRequest{Xid: end.Xid, ResourceId: "res", LockKey: "t:1"}}, message.GlobalLockQueryResponse{AbstractTransactionResponse: tr, Lockable: true}},
+	}
+	for _, k := range kinds {
+		sgetty.VerifResetRemoting()
+		vtime.SetVirtual(func(d time.Duration) bool { return false })
+		ks := &kindSession{}
+		sgetty.VerifRegisterSession(ks)
+		type ret struct {
+			resp interface{}
+			err  error
+		}
+		done := make(chan ret, 1)
+		go func() {
+			resp, err := sgetty.GetGettyRemotingClient().SendSyncRequest(k.req)
+			done <- ret{resp, err}
+		}()
+		quiet.Spin(func() bool { ks.mu.Lock(); defer ks.mu.Unlock(); return len(ks.last) > 0 }, 3)
+		ks.mu.Lock()
+		var id int32 = -1
+		if len(ks.last) > 0 {
+			id = ks.last[0].ID
+		}
+		ks.mu.Unlock()
+		r.Eval(true)
+		r.Count("kind_sweep_cases", 1)
+		loc := map[string]interface{}{"kind": k.name}
+		if id < 0 {
+			r.Violate("kind-sweep/request-not-written/"+k.name, clauseText, loc, "the request never reached the session")
+			vtime.FirePending(0)
+			continue
+		}
+		sgetty.GetGettyClientHandlerInstance().OnMessage(ks, message.RpcMessage{ID: id, Type: message.GettyRequestTypeResponse, Codec: byte(codec.CodecTypeSeata), Body: k.rsp})
+		quiet.Spin(func() bool { return len(done) > 0 }, 3)
+		select {
+		case got := <-done:
+			if got.err != nil || fmt.Sprintf("%T", got.resp) != fmt.Sprintf("%T", k.rsp) {
+				r.Violate("kind-sweep/wrong-reply/"+k.name, clauseText, loc, fmt.Sprintf("the caller got (%T, %v), its reply %T was delivered under its id %d", got.resp, got.err, k.rsp, id))
+			}
+		default:
+			r.Violate("kind-sweep/reply-lost/"+k.name, clauseText, loc, fmt.Sprintf("the %T carrying the request's id %d was delivered and fully processed, yet the caller is still waiting", k.rsp, id))
+			vtime.FirePending(0) // let the caller time out
+			quiet.Spin(func() bool { return len(done) > 0 }, 3)
+		}
+		if n := sgetty.VerifPendingFutures(); n != 0 {
+			r.Violate("kind-sweep/bookkeeping-left/"+k.name, clauseText, loc, fmt.Sprintf("%d pending future(s) remain", n))
+		}
+		vtime.SetPassThrough()
+	}
+}
+
 func Run(r *rep.Run) {
 	thorough := r.Tier == "thorough"
 	r.Rule = "every schedule with at most `bound` deviations (preemptions at the rewriter-inserted scheduling points before/after each channel and sync.Map operation of getty_remoting.go, getty_client.go, client_on_response_processor.go and inside the session's WritePkg; environment events landing before a runnable thread) of N concurrent SendSyncRequest callers on the real remoting client against a fake session; environment events: each reply (1-3 copies per request, or none), each caller's 20 s timer, a phase-two reply under a colliding message id, loss of one of two connections, a request whose write fails; all orders of environment events at quiescence are explored without bound. Non-trivial = the execution had at least one point with more than one enabled action."
@@ -611,6 +707,7 @@ func Run(r *rep.Run) {
 	}
 	shard, nshards, worker := rep.Shard()
 	if !worker {
+		kindSweep(r)
 		rep.RunSharded(r, 16, 60*time.Minute)
 		// distinct observed outcomes per scenario (union over the workers)
 		union := map[string]map[string]bool{}
